@@ -162,8 +162,11 @@ func (c03) invalidate(r *core.Rand, v gen.VText) [][2]string {
 		{"epoch-empty", ":" + plain},
 		{"epoch-negative", "-" + r.Str("123456789", 1) + ":" + plain},
 		{"epoch-oversized", r.Str("123456789", 1) + r.Str(gen.Digits, r.Range(20, 30)) + ":" + plain},
-		{"epoch-oversized", r.Str("123456789", 1) + r.Str(gen.Digits, 19) + ":" + plain},
-		{"epoch-oversized", r.Pick([]string{"9223372036854775808", "9223372036854775809", "18446744073709551615", "18446744073709551616", "18446744073709551617", "09223372036854775808", "99999999999999999999"}) + ":" + plain},
+		{"epoch-oversized", r.Str("23456789", 1) + r.Str(gen.Digits, 19) + ":" + plain},
+		{"epoch-oversized", r.Pick([]string{"18446744073709551616", "18446744073709551617", "018446744073709551616", "99999999999999999999", "36893488147419103232"}) + ":" + plain},
+		// 2^63 .. 2^64-1 still fits the unsigned Epoch field: refusing it (as the code at the pinned commit does) and
+		// accepting it faithfully are both in line with the statement; accepting it as some OTHER number is not
+		{"epoch-top-bit", r.Pick([]string{"9223372036854775808", "9223372036854775809", "18446744073709551615", "09223372036854775808", "1" + r.Str(gen.Digits, 19)}) + ":" + plain},
 		{"nothing-after-colon", r.Str(gen.Digits, r.Range(1, 3)) + ":" + r.Pick([]string{"", " ", "\n"})},
 	}
 	if len(v.Text) >= 2 {
@@ -199,6 +202,22 @@ func (p c03) invalid(c *core.C, class, s string) {
 	v, err := version.Parse(s)
 	c.Cover("invalid:" + class)
 	c.Nontrivial()
+	if class == "epoch-top-bit" {
+		if e, perr := strconv.ParseUint(s[:strings.Index(s, ":")], 10, 64); perr != nil {
+			class = "epoch-oversized" // "1"+19 digits may exceed 2^64-1
+		} else {
+			if err == nil {
+				if uint64(v.Epoch) != e {
+					c.Failf("Parse(%q) accepted the epoch but reads it as %d", s, v.Epoch)
+				}
+				p.roundtrip(c, s, "grammar")
+				c.Cover("epoch-top-bit:accepted")
+			} else {
+				c.Cover("epoch-top-bit:refused")
+			}
+			return
+		}
+	}
 	if err == nil {
 		c.Failf("Parse(%q) accepted a string of the invalid class %q as %+v", s, class, v)
 	}
@@ -240,7 +259,7 @@ func (c03) roundtrip(c *core.C, s, source string) {
 		if v.Version != up || v.Revision != rev {
 			c.Failf("Parse(%q) = {epoch %d, upstream %q, revision %q}; read off the text, the upstream part is %q and the revision (after the last hyphen) %q", s, v.Epoch, v.Version, v.Revision, up, rev)
 		}
-		if epochText != "" && len(epochText) <= 18 && strings.Trim(epochText, "0123456789") == "" {
+		if epochText != "" && len(epochText) <= 20 && strings.Trim(epochText, "0123456789") == "" {
 			if n, err := strconv.ParseUint(epochText, 10, 64); err == nil && uint64(v.Epoch) != n {
 				c.Failf("Parse(%q) has epoch %d; the digits before the first colon say %d", s, v.Epoch, n)
 			}
